@@ -234,29 +234,22 @@ theorem log_findFirst (s : BSt) (l : List Nat) : (cleanupContexts.go.findFirst s
       · rfl
       · rw [ih]; rfl
 
-theorem logGrows_cleanupGo (inj : BSt → Nat → BSt) (hlog : ∀ s site, LogGrows s (inj s site)) (fuel : Nat) (s : BSt) :
-    LogGrows s (cleanupContexts.go inj fuel s) := by
+theorem log_cleanupGo (fuel : Nat) (s : BSt) : (cleanupContexts.go fuel s).log = s.log := by
   induction fuel generalizing s with
-  | zero => exact LogGrows.refl _
+  | zero => rfl
   | succ n ih =>
     unfold cleanupContexts.go
     have f1 := log_findFirst s s.cache
     split
-    · rename_i s1 heq; rw [heq] at f1; exact LogGrows.ofEq f1
+    · rename_i s1 heq; rw [heq] at f1; exact f1
     · rename_i s1 i heq; rw [heq] at f1
-      refine (LogGrows.ofEq f1).trans (LogGrows.trans ?_ (ih _))
-      have : LogGrows s1 (if s1.cfg.cleanupReportsCounter = true then Backend.checkFailures inj s1 else s1) := by
-        split
-        · exact logGrows_checkFailures inj hlog s1
-        · exact LogGrows.refl _
-      exact this.trans (LogGrows.ofEq rfl)
+      rw [ih]; exact f1
 
-theorem logGrows_cleanupContexts (inj : BSt → Nat → BSt) (hlog : ∀ s site, LogGrows s (inj s site)) (s : BSt) :
-    LogGrows s (Backend.cleanupContexts inj s) := by
+theorem log_cleanupContexts (s : BSt) : (Backend.cleanupContexts s).log = s.log := by
   unfold Backend.cleanupContexts
   split
-  · exact LogGrows.refl _
-  · exact logGrows_cleanupGo inj hlog _ _
+  · rfl
+  · exact log_cleanupGo _ _
 
 theorem processEvent_flush (s : BSt) (st : Stmt) (f : Nat) (hk : st.kind = .flush f) :
     processEvent s st = (flushSinks s, none, some f) := by
@@ -283,7 +276,7 @@ theorem flush_step (inj : BSt → Nat → BSt) (hlog : ∀ s site, LogGrows s (i
   obtain ⟨blk, e1, e2, e3⟩ := flushSinks_log s
   have hpre : LogGrows (flushSinks s) (plPre inj (plPop (flushSinks s) j st rest)) := by
     unfold plPre
-    refine LogGrows.trans ?_ (logGrows_cleanupContexts inj hlog _)
+    refine LogGrows.trans ?_ (LogGrows.ofEq (log_cleanupContexts _))
     split
     · exact (LogGrows.ofEq (s := flushSinks s) rfl).trans (logGrows_checkFailures inj hlog _)
     · exact LogGrows.ofEq rfl
